@@ -758,8 +758,14 @@ def reader_path_case(args) -> Tuple[List[Tuple[str, str, str]], Dict[str, int]]:
     tmp = _tf.mkdtemp(prefix="c11rd_", dir=_WORK[0] or None)
     try:
         root = Path(tmp) / "t2"
+        # where a row is FILED in the store (the directory of a derived vector store is not the authority on who owns an
+        # episode: in every third case one row sits in another owner's directory, e.g. re-attributed after the store was written)
+        filed = {x: o for x, (o, _, _) in rows.items()}
+        if i % 3 == 0 and rows:
+            x0 = sorted(rows)[r.randrange(len(rows))]
+            filed[x0] = r.choice([o for o in owners if o != rows[x0][0]])
         for ow in owners:
-            ids = [x for x, (o, _, _) in rows.items() if o == ow]
+            ids = [x for x in rows if filed[x] == ow]
             if ids:
                 write_shard(root / ow / "2025Q3", ids, np.asarray([rows[x][1] for x in ids], dtype=np.float32), dtype="fp32", precompute_norms=True)
         raw = {"k_surface": 4, "t2": {"backend": "inmemory", "k_retrieval": k, "sim_threshold": thr, "owner_scope": scope, "embed_root": str(root),
